@@ -29,7 +29,9 @@ RULE = ("(a) self-replacement P→P on planted structures (all cell kinds, poses
         "with replace_all=True (2–3 differently posed copies, fraction 1 / 0.75 / 0.5 / 0.34; required: atom count and "
         "(element, position mod lattice) multiset unchanged within 4·atol), and in (b): A→B on a random part of the sites, "
         "B→A on all B sites must restore the multiset. (b) also with B = A + one element substituted + one atom of "
-        "unchanged element re-positioned by 0.02–0.09 Å (tight tolerance: more than 1.3·atol; and atol 0.1 / 0.2).")
+        "unchanged element re-positioned by 0.02–0.09 Å (tight tolerance: more than 1.3·atol; and atol 0.1 / 0.2). "
+        "TILT: in (b) and in the replace_all stream also 6–8 Å long patterns whose copies are tilted out of the pattern's own "
+        "orientation by 1e-3 rad … 1.3·atol rad (angle × lever arm > tolerance while angle[rad] < atol[Å]).")
 
 MOF = os.path.join(core.REPO, "")
 
@@ -176,8 +178,10 @@ def self_all_case(rng, tier):
     """self-replacement with replace_all=True (every matched atom is removed and the pattern's atoms are inserted in
     its place), on all or on a random part of the matches: ≥ 2 copies in different poses, multi-atom patterns"""
     names = [p for p in findlib.PATTERNS if len(findlib.PATTERNS[p][0]) >= 2]
-    base = G.make_case(rng, tier, hints=(None, None, None), pname=rng.choice(names), rp_kind="keep_all+far",
-                       replace_all=False, atol=rng.choice([0.05, 0.02]), distort=False, exact=False, ncopies=rng.randint(2, 3))
+    tilt = rng.random() < 0.35          # long patterns, copies tilted by a small angle out of the pattern's orientation
+    base = G.make_case(rng, tier, hints=(None, None, None), pname=rng.choice(list(G.LONG_PATTERNS)) if tilt else rng.choice(names),
+                       rp_kind="keep_all+far", replace_all=False, atol=rng.choice([0.05, 0.02]), distort=False, exact=False,
+                       tilt=tilt, ncopies=rng.randint(1, 2) if tilt else rng.randint(2, 3))
     return {"op": "c08-self-all", "s": base["s"], "p": base["p"], "atol": base["atol"], "seed": base["seed"],
             "info": base["info"], "replace_all": True, "fraction": rng.choice([1.0, 0.5, 0.5, 0.34, 0.75])}
 
@@ -214,12 +218,20 @@ def site_case(rng, tier):
     if single:
         pname = "single"
     else:
-        variant = rng.choice(["plain", "fraction", "fraction", "nudge", "nudge"])
-        names = [p for p in findlib.PATTERNS if p != "single" and (variant != "nudge" or len(findlib.PATTERNS[p][0]) >= 3)]
-        pname = rng.choice(names)
+        variant = rng.choice(["plain", "fraction", "fraction", "nudge", "nudge", "tilt", "tilt"])
+        # nudge: only patterns without (near-)symmetry — a symmetric pattern with one atom re-positioned by more than the
+        # tolerance can still match its own copy in two numberings (out-of-plane shifts change the distances only to second
+        # order), and the way back is then legitimately ambiguous
+        names = [p for p in findlib.PATTERNS if p != "single" and (variant != "nudge" or (
+            len(findlib.PATTERNS[p][0]) >= 3 and p.split("@")[0] not in G.SYMMETRIC))]
+        pname = rng.choice(names) if variant != "tilt" else rng.choice(list(G.LONG_PATTERNS))
     rp_kind = "subst"
     if variant == "fraction":
         kw = dict(ncopies=rng.randint(2, 3))
+    if variant == "tilt":
+        # 6–8 Å long site patterns whose copies are tilted by a small angle (1e-3 rad … 1.3·atol rad) out of the pattern's
+        # own orientation: the substituted atom sits at the end of a long lever arm
+        kw = dict(tilt=True, atol=rng.choice([0.05, 0.05, 0.1, 0.02]), ncopies=rng.randint(1, 2))
     if variant == "nudge":
         # B = A with one element substituted AND one atom of unchanged element re-positioned; undistorted copies. Either a
         # tight tolerance (the re-positioning exceeds it: B is geometrically a different pattern than A) or a wide one
@@ -228,6 +240,7 @@ def site_case(rng, tier):
         kw = dict(atol=atol, distort=False, exact=False, nudge=(lo, 0.09))
         rp_kind = "subst+nudge"
     # multi-atom sites: moderate distortion only, so that the tolerance stays "large enough to match" in BOTH directions
+    kw.setdefault("tilt", False)
     base = G.make_case(rng, tier, hints=(None, None, None), pname=pname, rp_kind=rp_kind, replace_all=False, fmax=0.35, **kw)
     case = {"op": "c08-site", "s": base["s"], "a": base["p"], "b": base["r"], "atol": base["atol"], "seed": base["seed"],
             "single": single, "info": base["info"], "variant": variant}
@@ -410,6 +423,7 @@ def do_self_all(ctx, case, ops):
     ctx.case(case, nontrivial=bool(used))
     ctx.count("self-all")
     ctx.count("self-all:fraction:%s" % case["fraction"])
+    ctx.count("self-all:tilted:%s" % bool(case["info"].get("tilt_over_atol")))
     ctx.count("self-all:matches:%d" % min(len(used), 4))
     if bad:
         ctx.fail(bad, case, observed={"err": out.get("err"), "n": out.get("n")},
